@@ -155,6 +155,43 @@ def gen_req_cases(rng, n, big):
     return lines, stats
 
 
+def gen_alloc_cases(rng, n, big, faults):
+    """C07 (faults=False): valid / knobbed / merged / mutated inputs with a recording allocator.
+       C08 (faults=True): for each input: refuse only the k-th request for every k, refuse the k-th and all later,
+       and random subsets."""
+    lines = []
+    stats = {'schemas': 0, 'inputs': 0, 'masks': 0}
+    while stats['inputs'] < n:
+        sch = rand_schema(rng, big=big)
+        lines += sch.lines()
+        stats['schemas'] += 1
+        for _ in range(rng.choice([3, 5])):
+            ty = rng.randrange(len(sch.msgs))
+            m = rand_msg(rng, sch, ty, big=False)
+            knobs = {'pad': rng.random() < 0.3, 'flip_packed': rng.random() < 0.4, 'split_packed': rng.random() < 0.5,
+                     'stale': rng.random() < 0.6, 'shuffle': rng.random() < 0.5, 'empty_packed': rng.random() < 0.3,
+                     'split_msg': rng.random() < 0.7, 'multi_oneof': rng.random() < 0.6}
+            b = encode(sch, m, rng, knobs)
+            if rng.random() < 0.25:
+                b = mutate(rng, b)
+            stats['inputs'] += 1
+            if not faults:
+                lines.append('unpackf %d X%s - 0' % (ty, b.hex()))
+                lines.append('unpacksys %d X%s' % (ty, b.hex()))
+                continue
+            # how many requests does a fault-free run make?  bound it generously by len/1 + fields
+            nreq = min(60, 4 + len(b))
+            for k in range(nreq):
+                lines.append('unpackf %d X%s %s 0' % (ty, b.hex(), '0' * k + '1'))
+                lines.append('unpackf %d X%s %s 1' % (ty, b.hex(), '0' * k + '1'))
+                stats['masks'] += 2
+            for _ in range(6):
+                mask = ''.join(rng.choice('0001') for _ in range(nreq))
+                lines.append('unpackf %d X%s %s %d' % (ty, b.hex(), mask, rng.choice([0, 0, 1])))
+                stats['masks'] += 1
+    return lines, stats
+
+
 def u_bounds(w):
     return pbgen.B32 if w == 32 else pbgen.B64
 
@@ -261,6 +298,10 @@ def main():
         lines, stats = gen_wire_cases(rng, n, big)
     elif kind == 'req':
         lines, stats = gen_req_cases(rng, n, big)
+    elif kind == 'alloc':
+        lines, stats = gen_alloc_cases(rng, n, big, False)
+    elif kind == 'fault':
+        lines, stats = gen_alloc_cases(rng, n, big, True)
     else:
         raise SystemExit('unknown kind')
     open(out, 'w').write('\n'.join(lines) + '\n')
